@@ -9,7 +9,10 @@ oracle: decided on the device's own log of what each line printed, independent o
 streams (focus_scenarios): prompt-like line suffixes at the search-depth point, dialogues that repeat an expected
 response (with / without interaction_complete_patterns), two-line prompts, UTF-8 text whose continuation bytes 0x9b / 0x9d
 (the 8-bit CSI / OSC codes as single bytes) are followed by everything the ANSI pattern could consume, in outputs and in
-echoes, inside one read and cut by a read boundary; commands of 20 .. 1100 characters whose echo arrives in several reads."""
+echoes, inside one read and cut by a read boundary; commands of 20 .. 1100 characters whose echo arrives in several reads;
+histories in which the user CHANGES the prompt pattern of the open connection between operations (driver attribute, channel
+arguments, update_privilege_levels() after editing a level pattern): the oracle's domain and the model (run_segs) take the
+pattern in force at each operation; tie: the channel compiles the pattern text at each use (AST + probe in gen_channel)."""
 import json
 import os
 import re
@@ -76,10 +79,34 @@ def pattern_of(kind):
     return _PATS[kind]
 
 
-def response_search(kind, resp):
-    """how an expected response of send_interactive is looked for (documented behaviour of scrapli)"""
+_CPATS = {}
+
+
+def compiled(text):
+    """a comms_prompt_pattern as scrapli documents its use: bytes, multi-line, case-insensitive"""
+    if text not in _CPATS:
+        _CPATS[text] = re.compile(text.encode(), re.M | re.I)
+    return _CPATS[text]
+
+
+def in_force(scn):
+    """per operation: (name, compiled pattern) of the prompt pattern IN FORCE when the operation is called - the pattern of the
+    constructed driver until the user sets another one (op "setpat": `conn.comms_prompt_pattern = ...`, the channel's arguments,
+    update_privilege_levels() after editing level patterns), then that one.  For a setpat operation: the pattern it sets."""
+    cur = (scn["kind"], pattern_of(scn["kind"]))
+    out = []
+    for op in scn["ops"]:
+        if op["op"] == "setpat":
+            cur = (op["pattern"], compiled(op["pattern"]))
+        out.append(cur)
+    return out
+
+
+def response_search(pat, resp):
+    """how an expected response of send_interactive is looked for (documented behaviour of scrapli); pat: the compiled prompt
+    pattern in force"""
     if not resp:
-        return lambda b: bool(pattern_of(kind).search(b))
+        return lambda b: bool(pat.search(b))
     rb = resp.encode()
     if rb.startswith(b"^") and rb.endswith(b"$"):
         cp = re.compile(rb, re.M | re.I)
@@ -121,24 +148,21 @@ def stage_texts(scn):
     return out
 
 
-def in_domain(scn, exact=False):
-    """the property's side conditions, decided from the scenario alone with CPython's re:
-    commands without control characters; printed text without CR/ESC; no proper prefix of what the device prints
-    between the return and the end of the awaited prompt is read as that prompt through the search window;
-    the prompt stripped from the cleaned text is the final one only.  exact=False trusts the generator's safe
-    alphabet for the two searches (they are vacuous there).
-    "No complete or partial line can be read as a prompt" is read as Coq's `quiet` states it: no PREFIX of the stream (a
-    complete line or a line prefix as received, seen through the search window) - a line SUFFIX is no candidate, the window
-    drops its first partial line.  The prompt may have two lines (Junos banner line) if the driver's pattern reads it as one
-    prompt.  send_interactive: see the comment in the branch below (completion patterns are inside the domain)."""
-    kind, depth = scn["kind"], scn.get("depth") or 1000
-    prompt = s2b(scn["prompt"])
-    core, trail = split_prompt(prompt)
-    pat = pattern_of(kind)
-    if not core or core[:1] in WS or b"\n" in trail or b"\r" in prompt or len(prompt) + 1 > depth:
-        return False
+_PROMPT_OK = {}
+
+
+def prompt_in_domain(pat, core, trail):
+    """the device's prompt (core + trailing blank) is a prompt of the pattern, and no proper prefix of it is"""
+    key = (pat.pattern, core, trail)
+    if key in _PROMPT_OK:
+        return _PROMPT_OK[key]
+    _PROMPT_OK[key] = ok = _prompt_in_domain(pat, core, trail)
+    return ok
+
+
+def _prompt_in_domain(pat, core, trail):
     # a prompt of several lines (the Junos routing-engine banner line "{master:0}" in front of "user@host>"): every line
-    # starts and ends in a non-blank; whether the driver's pattern reads it as ONE prompt is decided by the searches below
+    # starts and ends in a non-blank; whether the pattern reads it as ONE prompt is decided by the searches below
     if b"\n" in core and any(not l or l[:1] in WS or l[-1:] in WS for l in core.split(b"\n")):
         return False
     for w in [trail[i:] for i in range(len(trail) + 1)]:
@@ -151,13 +175,46 @@ def in_domain(scn, exact=False):
                 return False
     if pat.sub(b"", b"\n" + core) != b"\n":
         return False
+    return True
+
+
+def in_domain(scn, exact=False):
+    """the property's side conditions, decided from the scenario alone with CPython's re:
+    commands without control characters; printed text without CR/ESC; no proper prefix of what the device prints
+    between the return and the end of the awaited prompt is read as that prompt through the search window;
+    the prompt stripped from the cleaned text is the final one only.  exact=False trusts the generator's safe
+    alphabet for the two searches (they are vacuous there).
+    "No complete or partial line can be read as a prompt" is read as Coq's `quiet` states it: no PREFIX of the stream (a
+    complete line or a line prefix as received, seen through the search window) - a line SUFFIX is no candidate, the window
+    drops its first partial line.  The prompt may have two lines (Junos banner line) if the driver's pattern reads it as one
+    prompt.  send_interactive: see the comment in the branch below (completion patterns are inside the domain).
+    "All prompts of the driver's pattern": the pattern is the one IN FORCE when an operation is called (in_force) - an output line
+    that an earlier or a later pattern of the connection would read as a prompt is ordinary text for that operation."""
+    kind, depth = scn["kind"], scn.get("depth") or 1000
+    prompt = s2b(scn["prompt"])
+    core, trail = split_prompt(prompt)
+    if not core or core[:1] in WS or b"\n" in trail or b"\r" in prompt or len(prompt) + 1 > depth:
+        return False
+    # the pattern may be changed between operations: the device's prompt must be a prompt of EVERY pattern that is in force at
+    # some operation, and every operation's output is judged against the pattern in force when it is called
+    try:
+        force = in_force(scn)
+    except (re.error, KeyError, TypeError):
+        return False
+    for pname, pat in list(dict([(kind, pattern_of(kind))] + force).items()):
+        if not prompt_in_domain(pat, core, trail):
+            return False
     for r in scn["replies"]:
         texts = [s2b(r["out"])] if "out" in r else [s2b(t) + s2b(q) for t, q, _ in r["stages"]] + [s2b(r["final"])]
         if any(b"\r" in t or b"\x1b" in t for t in texts):
             return False
     k = 0
-    for op in scn["ops"]:
+    for op, (pname, pat) in zip(scn["ops"], force):
         if op["op"] == "prompt":
+            continue
+        if op["op"] == "setpat":
+            if op.get("via") not in ("driver", "args", "privs") or (op["via"] == "privs" and kind == "generic"):
+                return False
             continue
         if op["op"] in ("cmd", "cmds"):
             cmds = [op["cmd"]] if op["op"] == "cmd" else op["cmds"]
@@ -175,7 +232,7 @@ def in_domain(scn, exact=False):
                 k += 1
                 if exact:
                     text = b"\n" + clean_body(out) + core
-                    if not quiet(lambda b: bool(pat.search(b)), depth, text, len(text), key=("class", kind)):
+                    if not quiet(lambda b: bool(pat.search(b)), depth, text, len(text), key=("class", pname)):
                         return False
                     cleaned = b"\n" + clean_body(b"\n".join(l.rstrip(WS) for l in out.split(b"\n"))) if out else b"\n"
                     if op["strip"] and pat.sub(b"", cleaned + core) != cleaned:
@@ -197,7 +254,7 @@ def in_domain(scn, exact=False):
             m = len(stages)
             if (m + 1 > len(evs)) if comp else (m + 1 != len(evs)):
                 return False
-            cfound = [response_search(kind, p) for p in comp]
+            cfound = [response_search(pat, p) for p in comp]
             for j, ev in enumerate(evs[:m + 1]):
                 ib = ev[0].encode()
                 if any(x in ib for x in b"\x08\n\r\x1b") or not ev[1]:
@@ -206,7 +263,7 @@ def in_domain(scn, exact=False):
                     return False
                 if j > 0 and (ev[2] is True) == stages[j - 1][2]:
                     return False      # hidden <-> not echoed
-                found = response_search(kind, ev[1])
+                found = response_search(pat, ev[1])
 
                 def armed(b, found=found):
                     return found(b) or any(f(b) for f in cfound)
@@ -265,6 +322,15 @@ def oracle(scn, res):
             bad.append(("unread-output", "%s returned with %r unread (more than the last prompt's trailing blank)" % (name, residue[:80])))
         if not o["ready"]:
             bad.append(("device-not-at-prompt", "%s returned while the device is not at its prompt" % name))
+        if op["op"] == "setpat":
+            # setting a pattern is no conversation with the device; afterwards the connection reports the pattern that was set
+            if o["log"] or o.get("writes"):
+                bad.append(("extra-lines", "%s (%s) wrote %r to the device" % (name, op["via"], [w[0] for w in o.get("writes", [])][:3])))
+            if residue != w0:
+                bad.append(("unread-output", "%s (%s) read from the transport" % (name, op["via"])))
+            if op["via"] in ("driver", "args") and list(o.get("pattern", [])) != [op["pattern"], op["pattern"]]:
+                bad.append(("pattern-not-in-force", "%s: after setting the pattern through %s the connection reports %r" % (name, op["via"], o.get("pattern"))))
+            continue
         if op["op"] == "prompt":
             if o["prompt"].encode() != core:
                 bad.append(("get-prompt", "get_prompt returned %r, the device's prompt is %r" % (o["prompt"], core)))
@@ -498,6 +564,38 @@ def scen_term(scn, res):
 
 def case_term(scn, res):
     return "(%s, %s)" % (scen_term(scn, res), obs_term(scn, res))
+
+
+_RE_TERMS = {}
+
+
+def re_term(text):
+    from gen import regex as rx
+    if text not in _RE_TERMS:
+        _RE_TERMS[text] = rx.translate(text.encode(), re.M | re.I)[0]
+    return _RE_TERMS[text]
+
+
+def seg_case_term(scn, res):
+    """a history with pattern changes as the model takes it: the operations between two changes form a segment that runs under
+    the pattern in force (Channel.v run_segs); the observation is that of the operations proper"""
+    segs, cur, ops = [], "gen_pat_%s" % scn["kind"], []
+    for op in scn["ops"]:
+        if op["op"] == "setpat":
+            segs.append("(%s, %s)" % (cur, coq_list([op_term(o) for o in ops])))
+            cur, ops = re_term(op["pattern"]), []
+        else:
+            ops.append(op)
+    segs.append("(%s, %s)" % (cur, coq_list([op_term(o) for o in ops])))
+    keep = [i for i, op in enumerate(scn["ops"]) if op["op"] != "setpat" and i < len(res["ops"])]
+    plain = dict(scn, ops=[scn["ops"][i] for i in keep])
+    pres = dict(res, ops=[res["ops"][i] for i in keep])
+    return "(%s, %s, %s)" % (scen_term(dict(scn, ops=[]), res), coq_list(segs), obs_term(plain, pres))
+
+
+HEADER_SEG = HEADER + """Definition chk2 (c : scen * list seg * obs) : bool :=
+  check_segs gen_ansi gen_ansi_partial gen_hold_scan (fst (fst c)) (snd (fst c)) (snd c).
+"""
 
 
 # ------------------------------------------------------------------------------------------------
@@ -1176,6 +1274,147 @@ def long_echo_family(rng, thorough):
     return out
 
 
+# lines a loose prompt pattern reads as a prompt and a narrower one does not (and the other way round)
+TEMPTING = ["RX>", "TX>", "Totals:", "Summary:", "vlan#", "core-sw2#", "edge1>", "user@host$", "[edit]", "flags:", "ops@", "a~", "sw1(config)#",
+            "sw1(config-if)#", "root@re0%", "r2(tcl)#", "+>", ">", "lab#", "Gi0/1:", "spine-1.lab>", "{master:0}", "bash-5.1$", "vlan 10#"]
+_LEVELS = {}
+
+
+def level_patterns(kind):
+    """(name, pattern) of the privilege levels of a constructed driver of that kind, in the driver's order"""
+    if kind not in _LEVELS:
+        from gen import gen_channel
+        d = gen_channel._driver(kind, True)
+        _LEVELS[kind] = [(n, l.pattern) for n, l in d.privilege_levels.items()]
+    return list(_LEVELS[kind])
+
+
+def joined_levels(levels):
+    """the prompt pattern of a network driver: any of its levels' patterns (update_privilege_levels)"""
+    return "|".join("(%s)" % p for _, p in levels)
+
+
+def narrowed_patterns(rng, core):
+    """prompt patterns a user may set on an open connection, all of which read the device's prompt `core` as a prompt: this
+    host in this mode only; this host in either mode; any host, this prompt character only; the loose default minus $ ~ @ : ];
+    this host, exec or configuration mode"""
+    host, end = re.escape(core[:-1]), re.escape(core[-1])
+    pats = ["^" + re.escape(core) + r"\s*$", "^" + host + r"[#>]\s?$", r"^[a-z0-9.\-@()/:]{1,48}" + end + r"\s*$", r"^\S{0,48}[#>]\s*$",
+            "^(?:" + re.escape(core) + "|" + host + r"\(config[a-z\-]{0,16}\)#)\s?$", r"^[\w.\-@/:]{1,63}" + end + r"\s?$"]
+    rng.shuffle(pats)
+    return pats
+
+
+def tempting_lines(old, new, core):
+    """lines that `old` reads as a prompt and `new` does not"""
+    cands = TEMPTING + [core[:-1] + c for c in "#>$:" if core[:-1] + c != core] + [core[:-1] + "(config)#", "x" + core]
+    return [l for l in cands if old.search(l.encode()) and not new.search(l.encode())]
+
+
+def output_with(rng, lines, size):
+    """some text in which the given lines occur as complete lines (first, inner, last; sometimes with trailing blanks)"""
+    body = [l for l in b2s(gen_output(rng, size)).split("\n")] if size else []
+    for l in lines:
+        body.insert(rng.choice([0, len(body), rng.randint(0, len(body))]), l + rng.choice(["", "", " ", "  "]))
+    return "\n".join(body)
+
+
+def repattern_scenario(rng, kind, stack, via):
+    """a history on ONE open connection in which the user changes the prompt pattern 1-3 times between operations - through the
+    driver attribute (conn.comms_prompt_pattern = ...), through the channel's arguments, or by editing privilege level patterns
+    and calling update_privilege_levels() - narrowing it, replacing it by another narrow one, restoring the original.  After every
+    change the outputs contain lines that the PREVIOUS pattern reads as a prompt and the pattern now in force does not ("RX>",
+    "Totals:", "vlan#" ...): they are ordinary text for the operation that prints them"""
+    for attempt in range(20):
+        prompt = rng.choice(FOCUS_PROMPTS[kind]) if rng.random() < 0.5 else gen_prompt(rng, kind)
+        core = prompt.rstrip(" ")
+        depth = rng.choice([1000, 1000, 1000, 200, 64])
+        if len(prompt) + 1 > depth:
+            depth = 1000
+        original = pattern_of(kind).pattern.decode()
+        levels = level_patterns(kind) if via == "privs" else None
+        ops, replies, tempted = [], [], 0
+        cur = original
+
+        def plain_ops(n, lines):
+            nonlocal tempted
+            for i in range(n):
+                k = rng.random()
+                mine = lines if i == 0 else (lines if rng.random() < 0.4 else [])
+                picked = [rng.choice(mine) for _ in range(rng.randint(1, 3))] if mine else []
+                tempted += bool(picked)
+                out = output_with(rng, picked, rng.choice([0, 0, 12, 40, 150, depth - len(prompt) - 8 if depth < 1000 else 300]))
+                if k < 0.6 or i == 0:
+                    ops.append({"op": "cmd", "cmd": gen_cmd(rng).strip() or "show counters", "strip": rng.random() < 0.7})
+                    replies.append({"out": out})
+                elif k < 0.75:
+                    ops.append({"op": "cmds", "cmds": ["show one", "show  two "], "strip": rng.random() < 0.7, "eager": False})
+                    replies.extend([{"out": out}, {"out": output_with(rng, picked[:1], 20)}])
+                elif k < 0.87:
+                    evs, r = gen_dialogue(rng, core)
+                    r["final"] = out
+                    ops.append({"op": "inter", "events": evs, "complete": None})
+                    replies.append(r)
+                else:
+                    ops.append({"op": "prompt"})
+
+        plain_ops(rng.choice([0, 1, 1, 2]), [])
+        for change in range(rng.choice([1, 1, 2, 3])):
+            if via == "privs":
+                if change and rng.random() < 0.4:
+                    new_levels = level_patterns(kind)                       # the levels as they were
+                else:
+                    name, lp = rng.choice(levels)
+                    if compiled(lp).search(core.encode()):
+                        npat = "^" + re.escape(core) + r"\s?$"            # the current level, pinned to this host
+                    else:
+                        npat = rng.choice(["^" + re.escape(core[:-1]) + "[>]$", "^" + re.escape(core[:-1]) + r"\(config[\w.\-@/:]{0,32}\)#$",
+                                           r"^zz-unused-\d#$"])
+                    new_levels = [(n, npat if p == lp else p) for n, p in levels]   # every level that shares the edited pattern
+                edit = {n: p for (n, p), (_, p0) in zip(new_levels, levels) if p != p0}
+                levels = new_levels
+                new = joined_levels(levels)
+                if not edit:
+                    continue
+                ops.append({"op": "setpat", "via": "privs", "levels": edit, "pattern": new})
+            else:
+                new = original if change and rng.random() < 0.35 else narrowed_patterns(rng, core)[0]
+                if new == cur:
+                    continue
+                ops.append({"op": "setpat", "via": via, "pattern": new})
+            plain_ops(rng.choice([1, 1, 2, 3]), tempting_lines(compiled(cur), compiled(new), core))
+            cur = new
+        if not any(op["op"] == "setpat" for op in ops):
+            continue
+        if ops[-1]["op"] != "cmd":
+            ops.append({"op": "cmd", "cmd": "show clock", "strip": True})
+            replies.append({"out": "Thu Oct 1 2026 12.00 UTC"})
+        scn = with_nrep({"kind": kind, "stack": stack, "prompt": prompt, "nl": rng.choice(["\r\n", "\r\n", "\n"]), "ret": rng.choice(["\n", "\n", "\r\n"]),
+                         "depth": depth, "policy": rng.choice(FINE_POLICIES + [["bytes", 1000], ["tail", 3], ["bytes", 16]]),
+                         "focus": "repattern", "via": via, "tempted": tempted, "replies": replies, "ops": ops})
+        if tempted and in_domain(scn, exact=True):
+            break
+    return scn
+
+
+def repattern_family(rng, thorough):
+    """every driver kind x both stacks x every way of changing the pattern (driver attribute, channel arguments, and - network
+    drivers - update_privilege_levels() after editing a level pattern), then random ones"""
+    out = []
+    for rnd in range(3 if thorough else 1):
+        for i, kind in enumerate(KINDS):
+            for j, via in enumerate(["driver", "args", "privs"]):
+                if via == "privs" and kind == "generic":
+                    continue
+                for stack in ("sync", "async"):
+                    out.append(repattern_scenario(rng, kind, stack, via))
+    for n in range(160 if thorough else 40):
+        kind = rng.choice(KINDS)
+        via = rng.choice(["driver", "driver", "args", "privs"] if kind != "generic" else ["driver", "args"])
+        out.append(repattern_scenario(rng, kind, ["sync", "async"][n % 2], via))
+    return out
+
+
 def focus_scenarios(rng, thorough):
     """(scenario, to the model too?) - every scenario runs on the real driver under the oracle; a sample whose estimated
     evaluation cost is small is also evaluated by the model (the members of a family differ in a few bytes only)"""
@@ -1209,6 +1448,8 @@ def focus_scenarios(rng, thorough):
         out.append((scn, n % (41 if thorough else 53) == 0 and cheap(scn, 4000.0)))
     for n, scn in enumerate(long_echo_family(rng, thorough)):
         out.append((scn, n % 7 == 0 and cheap(scn, 6000.0)))
+    for n, scn in enumerate(repattern_family(rng, thorough)):
+        out.append((scn, n % 2 == 0 and cheap(scn, 15000.0)))
     return out
 
 
@@ -1289,6 +1530,10 @@ def minimise(scn, sig, pred):
 
 
 def oracle_sigs(scn):
+    if (scn.get("focus") == "repattern" or any(op["op"] == "setpat" for op in scn["ops"])) and not in_domain(scn, exact=True):
+        # removing a pattern change (or the operations around it) can put an output outside the domain of the pattern then in
+        # force: such a history is no counterexample
+        return []
     res = run_connection(scn)
     if res["open_exc"]:
         return ["open-" + res["open_exc"]]
@@ -1382,6 +1627,7 @@ def run(rep):
             "residue_nonempty_after_op": 0, "starved": 0, "edge_kinds": {}, "edge_in_domain": 0, "dialogue_events": 0, "focus": {},
             "total_output_bytes": 0, "reads": 0}
     terms, meta, fails = [], [], []
+    seg_terms, seg_meta = [], []       # histories with pattern changes: evaluated by the model's run_segs
     for stream, scn in streams:
         scn = flat(scn)
         try:
@@ -1420,9 +1666,28 @@ def run(rep):
         bad = oracle(scn, res) if dom else []
         for sig, text in bad:
             fails.append((scn, sig, text))
+        if scn.get("focus") == "repattern":
+            rp = dist.setdefault("repattern", {"by_via_kind_stack": {}, "pattern_changes": 0, "operations_after_a_change": 0,
+                                               "outputs_with_lines_the_previous_pattern_reads_as_prompt": 0})
+            if dom:
+                cls = "generic" if scn["kind"] == "generic" else "network" if scn["kind"] == "network" else "platform"
+                key = "%s %s %s" % (scn["via"], cls, scn["stack"])
+                rp["by_via_kind_stack"][key] = rp["by_via_kind_stack"].get(key, 0) + 1
+                first = [i for i, op in enumerate(scn["ops"]) if op["op"] == "setpat"][0]
+                rp["pattern_changes"] += sum(1 for op in scn["ops"] if op["op"] == "setpat")
+                rp["operations_after_a_change"] += sum(1 for op in scn["ops"][first:] if op["op"] != "setpat")
+                rp["outputs_with_lines_the_previous_pattern_reads_as_prompt"] += scn.get("tempted", 0)
         if stream != "focus-oracle":
-            terms.append(case_term(scn, res))
-            meta.append((stream, scn, bool(bad), dom))
+            if any(op["op"] == "setpat" for op in scn["ops"]):
+                try:
+                    seg_terms.append(seg_case_term(scn, res))
+                    seg_meta.append((stream, scn, bool(bad), dom))
+                except Exception as e:  # noqa  (a pattern the translator does not know: oracle only)
+                    dist["repattern_untranslatable"] = dist.get("repattern_untranslatable", 0) + 1
+                    rep.notes.append("repattern: pattern not translated for the model (%s)" % e)
+            else:
+                terms.append(case_term(scn, res))
+                meta.append((stream, scn, bool(bad), dom))
         # distribution
         def inc(d, k):
             d[str(k)] = d.get(str(k), 0) + 1
@@ -1474,6 +1739,15 @@ def run(rep):
     thin = sorted(k for k in want_keys if min(cs.get(k, [0, 0])) == 0)
     if thin:
         rep.broken.append("harness: utf8-9b9d stream: %d classes not seen both inside one read and cut by a read boundary (first: %s)" % (len(thin), thin[0]))
+    # the repattern family: every way of changing the pattern on every class of driver, sync and asyncio, inside the domain, and
+    # outputs with lines the replaced pattern reads as a prompt
+    rp = dist.get("repattern", {})
+    want_rp = {"%s %s %s" % (v, c, st) for v in ("driver", "args", "privs") for c in ("generic", "network", "platform") for st in ("sync", "async")
+               if not (v == "privs" and c == "generic")}
+    thin = sorted(k for k in want_rp if not rp.get("by_via_kind_stack", {}).get(k))
+    if thin or rp.get("outputs_with_lines_the_previous_pattern_reads_as_prompt", 0) < 20 or dist.get("repattern_untranslatable", 0) > 0:
+        rep.broken.append("harness: repattern stream thin: classes missing %s, %d outputs with tempting lines, %d untranslatable" % (
+            thin[:3], rp.get("outputs_with_lines_the_previous_pattern_reads_as_prompt", 0), dist.get("repattern_untranslatable", 0)))
     for sig, fscn in FINDING_SCENARIOS.items():
         try:
             fs = with_nrep(flat(fscn))
@@ -1488,11 +1762,25 @@ def run(rep):
             rep.notes.append("finding replay %s could not run: %r" % (sig, e))
     lap("implementation-runs")
     # 6. the model on the same histories
+    import threading
+    seg_out = [None, "not run"]
+
+    def eval_segs():
+        seg_out[:] = list(common.eval_cases(rep.workdir, "cases_c01_seg", HEADER_SEG, seg_terms, "chk2", shard=max(1, -(-len(seg_terms) // (8 if thorough else 4)))))
+
+    th = threading.Thread(target=eval_segs)
+    if gen_ok:
+        th.start()
     badix, log = (None, "generated file missing") if not gen_ok else eval_balanced(rep.workdir, "cases_c01", terms, 48 if thorough else 32)
+    if gen_ok:
+        th.join()
+    seg_bad, seg_log = seg_out
     lap("model-evaluation")
     rep.coverage["timing_s"] = timing
-    rep.coverage["correspondence"] = {"suite": "chan-framing", "cases": len(terms), "distribution": dist,
-                                      "model_disagreements": None if badix is None else len(badix), "oracle_failures": len(fails)}
+    rep.coverage["correspondence"] = {"suite": "chan-framing", "cases": len(terms) + len(seg_terms), "distribution": dist,
+                                      "cases_with_pattern_changes": len(seg_terms),
+                                      "model_disagreements": None if badix is None or seg_bad is None else len(badix) + len(seg_bad),
+                                      "oracle_failures": len(fails)}
     rep.coverage["generated_from"] = common.source_hashes(SOURCES)
     rep.coverage["generated"] = {k: v for k, v in info.items()}
     rep.rule = ("histories of 2-6 operations (send_command, send_commands, send_interactive with echoed and hidden answers, get_prompt) on one connection of a real "
@@ -1516,7 +1804,14 @@ def run(rep):
                 "an echoed answer of a dialogue; each under a policy that keeps the pair inside one read (whole, 16/1000 bytes, line-wise ...) and one that "
                 "cuts between the two bytes (1/2/3/7 bytes, take lists), each followed by a plain command (every class must be seen in both positions, "
                 "counted from the chunks the transport handed out); long-echo = commands of 20 .. 1100 non-blank characters read back in 1/7/16/64/128/130-"
-                "byte reads, all-but-the-last-3-bytes and a cut 1..90 characters before the end of the echo, alone and as second command of send_commands; observer: what was unread at every transport write (each answer is typed only after its "
+                "byte reads, all-but-the-last-3-bytes and a cut 1..90 characters before the end of the echo, alone and as second command of send_commands; "
+                "repattern = histories on one open connection in which the prompt pattern is changed 1-3 times BETWEEN operations - conn.comms_prompt_pattern = "
+                "..., the channel's arguments (_base_channel_args), and (network drivers) update_privilege_levels() after editing one or several level "
+                "patterns - narrowed to the host / the mode / the prompt character, replaced by another narrow pattern, restored; every driver kind x "
+                "sync/asyncio x every way of changing; after each change the outputs of send_command / send_commands / the final text of a dialogue hold "
+                "complete lines that the REPLACED pattern reads as a prompt and the pattern in force does not (RX> Totals: vlan# sw1(config)# [edit] ...; first, "
+                "inner and last line, with trailing blanks), get_prompt in between; in_domain and the model judge each operation against the pattern in "
+                "force when it is called; a pattern change itself must not talk to the device and must be reported back by the driver; observer: what was unread at every transport write (each answer is typed only after its "
                 "question was read); "
                 "non-trivial = in-domain operation of a history with >= 2 operations; distinct = (driver, stack, operation, chunk policy)")
     # 7. verdicts
@@ -1530,6 +1825,16 @@ def run(rep):
         small = minimise(scn, sig, oracle_sigs)
         rep.violation("%s %s: %s" % (scn["kind"], scn["stack"], text),
                       {"suite": "chan-framing", "scenario": small, "signature": sig, "rerun": "./check C01 --replay <this file>"}, signature=sig)
+    if seg_bad is None:
+        rep.broken.append("correspondence chan-framing, histories with pattern changes (model evaluation failed)")
+        rep.notes.append(seg_log)
+    elif seg_bad:
+        pure2 = [ix for ix in seg_bad if not seg_meta[ix][2]]
+        for ix in seg_bad[:3]:
+            rep.notes.append("model/implementation disagreement (repattern): %s" % json.dumps(seg_meta[ix][1])[:1600])
+        if pure2:
+            rep.broken.append("correspondence chan-framing: model (run_segs) differs from implementation on %d histor%s with pattern changes (first: %s %s via %s)" % (
+                len(pure2), "y" if len(pure2) == 1 else "ies", seg_meta[pure2[0]][1]["kind"], seg_meta[pure2[0]][1]["stack"], seg_meta[pure2[0]][1].get("via")))
     if badix is None:
         rep.broken.append("correspondence chan-framing (model evaluation failed)")
         rep.notes.append(log)
@@ -1586,6 +1891,8 @@ def replay(path):
     for op, o in zip(scn["ops"], res["ops"]):
         print("  %s" % {k: v for k, v in op.items() if k != "nrep"})
         print("     exc=%s prompt=%r unread=%r device at prompt=%s" % (o["exc"], o.get("prompt"), o["residue"], o["ready"]))
+        if op["op"] == "setpat":
+            print("     pattern reported by the driver / held by the channel's arguments: %r" % (o.get("pattern"),))
         for name, raw, proc in o["chan"]:
             print("     raw_result=%r" % (raw if len(raw) < 300 else raw[:140] + b" ... " + raw[-140:]))
             print("     result    =%r" % (proc if len(proc) < 300 else proc[:140] + b" ... " + proc[-140:]))
@@ -1611,7 +1918,7 @@ def replay(path):
 
 MANIFEST = {
     "category": "proof",
-    "text": "Coq theorem C01_history (props/C01.v, over coq/model/Channel.v; 20 property theorems, all 'Closed under the global context', and 3 Examples): for EVERY "
+    "text": "Coq theorem C01_history (props/C01.v, over coq/model/Channel.v; 22 property theorems, all 'Closed under the global context', and 5 Examples): for EVERY "
             "finite sequence of send_command / send_commands / send_interactive / get_prompt on one connection, EVERY chunker (any function of read index, "
             "bytes delivered and pending bytes), EVERY search depth greater than the prompt, return char \\n or \\r\\n, device line end, strip_prompt on/off, "
             "EVERY reply function of the device and EVERY output satisfying the property's side condition (no CR/ESC; no proper prefix of what is printed up to the "
@@ -1642,7 +1949,14 @@ MANIFEST = {
             "starts at) are followed by every kind of text that pattern could consume (7 8 M E, '[' parameters final byte, ']' digit text BEL; directly or "
             "after a blank / tab / newline), in send_command / send_commands / send_interactive outputs and in echoes, with the pair inside one read and "
             "cut by a read boundary (result = the normalised device record, decoded as UTF-8); commands of up to 1100 characters whose echo arrives in "
-            "several reads. read() itself is tied: C01_read_without_esc_verbatim (a read without ESC hands the transport's bytes on verbatim for EVERY "
+            "several reads; histories in which the prompt pattern of the OPEN connection is changed between operations (driver attribute "
+            "comms_prompt_pattern, the channel's arguments, update_privilege_levels() after editing level patterns; Generic, Network and platform drivers, "
+            "sync and asyncio) with outputs whose lines the replaced pattern reads as prompts: each operation is judged against the pattern in force when it "
+            "is called - Coq: C01_history_repattern (segments of a history, each with its own pattern, compose because the invariant between operations does "
+            "not mention the pattern; model run_segs, which evaluates every second of these histories whose estimated cost is small - the others are oracle-only), tie: C01_generated_pattern_read_at_each_use (probe of the "
+            "REAL helpers after a change of the pattern text) and an AST check that every use of the prompt pattern in the three channel classes compiles "
+            "self._base_channel_args.comms_prompt_pattern at that use through the static text-keyed _get_prompt_pattern, no compiled pattern kept on the "
+            "channel. read() itself is tied: C01_read_without_esc_verbatim (a read without ESC hands the transport's bytes on verbatim for EVERY "
             "stripping function - the guard of read() is part of the model, and the history theorem rests on it) and the obligation C01_generated_read "
             "over ~115 probes of the REAL Channel.read / AsyncChannel.read (carry-over in, one transport chunk -> bytes returned, carry-over out; half of "
             "them ESC-free chunks with 0x9b / 0x9d + every follower; C01_generated_read_guard_exercised: the tree's ANSI pattern would change some of them).",
@@ -1660,6 +1974,11 @@ MANIFEST = {
             "carries the escape-sequence carry-over of read() in both shapes of the tree, exercised model-vs-implementation only: edge stream 'esc' and the "
             "ESC-carrying half of the read() probes; inside C01's domain - no ESC - the model's read is the identity minus CR, which the utf8-9b9d stream "
             "checks on the real code under the oracle, a sample through the model). The long-echo stream is mostly oracle-only (a sample through the model). "
+            "Pattern changes: C01_history_repattern requires of every segment what C01_history_concrete requires (prompt_okb of the segment's pattern, outputs "
+            "quiet under it); the change itself is modelled as instantaneous and silent (the oracle checks on the real driver that it writes and reads "
+            "nothing and that the driver reports the pattern set); how a network driver derives the joined pattern from its levels is not modelled - the "
+            "harness takes 'any of the levels' patterns' as the pattern in force after update_privilege_levels(); patterns that change the PROMPT the device "
+            "prints (a new hostname) are not generated. "
             "failed flags are C13's. "
             "Partial: exactness of raw_result / 'nothing unread' only up to the trailing blank of a prompt and the trailing white space of a command (two known, "
             "benign findings). Trusted: Coq kernel + vm_compute, gen/gen_channel.py + gen/regex.py, the framing device and scripted transports, CPython re "
